@@ -1,5 +1,5 @@
 //! bounded(every *.block and *.tx fixture of /repo/test_data: decoded in its own era and re-encoded — the bytes must be the input bytes; and generated values:
-//! RationalNumber over 9 x 9 edge integers, every Relay shape (3 variants x ports {none, 0, 65535, 2^32-1} x IPv4 / IPv6 / names present or absent), Metadatum
+//! RationalNumber over 9 x 9 edge integers, every Relay shape (3 variants x ports {none, 0, 65535, 2^32-1} x IPv4 / IPv6 / names present or absent, names of 23..300 bytes), Metadatum
 //! integers across the CBOR range (0, 23, 24, 255, 256, 2^16, 2^32, 2^63-1, 2^64-1, -1, -24, -25, -2^63, -2^64), byte and text strings of lengths 0 / 1 / 64 / 65,
 //! lists and maps of those nested two levels, Nonce, NetworkId, the cost-model tables of Alonzo / Babbage / Conway shapes): decode(encode(v)) == v and
 //! the encoding is stable under a second round. Exit 1 with the first difference if not.
@@ -54,6 +54,9 @@ fn main() {
     for p in ports { for a in &v4 { for b in &v6 { rt("Relay", &Relay::SingleHostAddr(p, a.clone(), b.clone()), &mut n); } }
         for name in ["", "relay.example.org", "ü.example"] { rt("Relay", &Relay::SingleHostName(p, name.to_string()), &mut n); } }
     for name in ["", "x", "_srv._tcp.example.org"] { rt("Relay", &Relay::MultiHostName(name.to_string()), &mut n); }
+    // names at every length where a text head or a size rule of some era changes: 23 / 24 (one-byte length), 64 / 65 (Alonzo..Babbage limit), 128 / 129 (Conway limit), 255 / 256 (two-byte length), 300
+    for len in [23usize, 24, 63, 64, 65, 100, 128, 129, 255, 256, 300] { let name: String = "relay-0123456789.example.org.".chars().cycle().take(len).collect();
+        rt("Relay", &Relay::SingleHostName(Some(3001), name.clone()), &mut n); rt("Relay", &Relay::SingleHostName(None, name.clone()), &mut n); rt("Relay", &Relay::MultiHostName(name), &mut n); }
     let ints: Vec<Metadatum> = [0i128, 23, 24, 255, 256, 1 << 16, 1 << 32, (1 << 63) - 1, (1 << 64) - 1, -1, -24, -25, -(1 << 63), -(1 << 64)].iter()
         .map(|v| Metadatum::Int(Int::try_from(*v).unwrap())).collect();
     let mut atoms: Vec<Metadatum> = ints.clone();
